@@ -604,6 +604,61 @@ def w3b(led, rid, ctx):
     led.floor(rid, "objective accumulators", n, 2)
 
 
+def w8(led, rid, ctx):
+    """PB preprocessing fixes an objective literal to false only when its weight alone exceeds the
+    remaining budget: guard ⇒ weight + constant_term > k (decided on a window)"""
+    import itertools
+    from ..predalg import ev, Unknown
+    p = ctx.bin
+    f = None
+    for x in p.fns.values():
+        if x.name == "initialise_and_preprocess" and "/maxsat/encoders/" in x.file:
+            f = x
+    if f is None:
+        raise AnchorMissing("initialise_and_preprocess")
+    R = resolver(f)
+    n = 0
+    OPS = {"Lt": lambda a, b: a < b, "Le": lambda a, b: a <= b, "Gt": lambda a, b: a > b, "Ge": lambda a, b: a >= b}
+    for c in f.calls_named("add_clause"):
+        for g in guards_of(f, c.bb):
+            rf = rel_fact(g)
+            if not rf or rf[0] not in OPS:
+                continue
+            fl = set(rf[1].fields()) | set(rf[2].fields())
+            if "weight" not in fl or "constant_term" not in fl:
+                continue
+            n += 1
+            bad = None
+            try:
+                for w, k, ct in itertools.product(range(0, 7), range(0, 7), range(0, 7)):
+                    if ct > k:
+                        continue
+
+                    def leaf(x):
+                        x = peel(x, calls=None)
+                        fs = list(x.fields()) if x.k == "proj" else []
+                        if fs and fs[-1] == "weight":
+                            return w
+                        if fs and fs[-1] == "constant_term":
+                            return ct
+                        if x.k == "arg":
+                            return k
+                        return None
+                    gv = OPS[rf[0]](ev(rf[1], leaf), ev(rf[2], leaf))
+                    if gv and not (w + ct > k):
+                        bad = "weight %d, constant term %d, bound %d" % (w, ct, k)
+                        break
+            except Unknown as u:
+                bad = "an expression the rule cannot evaluate (%s)" % u
+            led.check(bad is None, rid, "preprocess:fixes-only-overweight-literals", c.span,
+                      "guard ⇒ weight + constant_term > k",
+                      "initialise_and_preprocess fixes an objective literal to false under `%s %s %s`, which "
+                      "holds for %s although the literal fits into the bound: solutions of cost exactly k are "
+                      "cut off and a non-optimal solution is declared optimal"
+                      % (show(rf[1])[:40], rf[0], show(rf[2])[:50], bad))
+    led.floor(rid, "root fixings in PB preprocessing", n, 1)
+
+
 def run(ctx, led):
     run_rule(led, "W1", "GUARDED-SUB over the MaxSAT code (weak form, one call level, table for "
              "arithmetic arguments)", w1, ctx)
@@ -616,3 +671,4 @@ def run(ctx, led):
     run_rule(led, "W6", "the root-satisfaction test of a soft clause sees the whole mapped clause", w6, ctx)
     run_rule(led, "W7", "encoder loops that post a clause per element do not stop after posting one", w7, ctx)
     run_rule(led, "W3b", "the objective Function accumulates weights per literal and constants", w3b, ctx)
+    run_rule(led, "W8", "PB preprocessing only fixes literals whose weight alone exceeds the remaining budget", w8, ctx)
